@@ -358,7 +358,7 @@ def T.plan (t : T) : Option (List RLine × Map (Option (List String)) × Map (Li
 
 /-- Cache update at the end of a successful `applyUpdates`. -/
 def T.commit (t : T) (newH : Map (Option (List String))) (newFull : Map (List FR)) : T :=
-  let dp := newH.reverse.foldl (fun m p => match p.2 with | some h => m.set p.1 h | none => m.erase p.1) t.dpHashes
+  let dp := newH.foldl (fun m p => match p.2 with | some h => m.set p.1 h | none => m.erase p.1) t.dpHashes
   { t with dirty := [], dirtyIA := [], dpHashes := dp, fullRules := newFull }
 
 /-! ## The world: Table + kernel + failure plan -/
